@@ -1,6 +1,7 @@
 mod cval;
 mod extra;
 mod families;
+mod floatop;
 mod nra;
 mod oracle;
 mod pipelines;
